@@ -2,6 +2,7 @@
 // injected clock.
 //   ops:  S <instr>*   start a thread (host ExecuteThread of a fresh script) running the program
 //           instr: p<m> | r | w<ms> | t<o><n> (waittill) | y<o><n>+ (waittill_any) | n<o><n> (notify)
+//                | u<o><ms><n> (waittill_timeout) | v<o><ms><n>+ (waittill_any_timeout)
 //                | e<o><n> (endon) | d<o> (delete) | s<o> (level.o<o> = spawn Listener)
 //                | th[ <instr>* ] (thread) | wt[ <instr>* ] (local.r = waitthread) | end | end<v>
 //         T <dt>       advance the clock
@@ -41,6 +42,16 @@ struct Gen {
                     for (size_t i = 2; i < w.size(); ++i) src += std::string(" \"") + w[i] + "\"";
                     src += "\n";
                 }
+            }
+            else if (w[0] == 'u') {
+                std::snprintf(buf, sizeof buf, "level.o%c waittill_timeout %.3f \"%c\"\n", w[1], (w[2] - '0') / 1000.0, w[3]);
+                src += buf;
+            }
+            else if (w[0] == 'v') {
+                std::snprintf(buf, sizeof buf, "level.o%c waittill_any_timeout %.3f", w[1], (w[2] - '0') / 1000.0);
+                src += buf;
+                for (size_t i = 3; i < w.size(); ++i) src += std::string(" \"") + w[i] + "\"";
+                src += "\n";
             }
             else if (w[0] == 'n') src += std::string("level.o") + w[1] + " notify \"" + w[2] + "\"\n";
             else if (w[0] == 'e') src += std::string("level.o") + w[1] + " endon \"" + w[2] + "\"\n";
